@@ -121,6 +121,23 @@ CLAIMED = {
         "technique": "Coq proof (accept-iff with a SEC1 spec, codec round trips, RFC byte equality) + regenerated tables + correspondence",
         "design": "DESIGN.md section 8 / C14",
     },
+    "C15": {
+        "text": "Machine-checked proof (Coq 8.16.1), full strength for an arbitrary hash: for every non-empty list merkle_root equals "
+                "Bitcoin's level-wise merkle root (last node of EVERY odd level duplicated), never runs out of fuel and needs "
+                "ceil(log2 n) levels; the BIP34 height push is Core's CScript() << height, decodes back and is the minimal encoding "
+                "(no shorter byte string decodes to h) for all heights; a coinbase has exactly one input spending the null outpoint, "
+                "script = height push ++ data of at most 100 bytes (else error), claims by default exactly subsidy(h, 210000) (150 on "
+                "regtest) and never more (an explicit larger reward is refused), and carries the BIP141 commitment output + reserved-"
+                "value witness iff a commitment is supplied; header (80 bytes) and block serialisation round-trip with the transaction "
+                "codec of C05/C04 (same header fields, transactions in order with their ids and raw bytes). Constants regenerated "
+                "(= Spec). Correspondence: every list length 1..300 (2048 thorough), every halving boundary on both schedules, BIP34 "
+                "boundaries, scripts 0..101 bytes, blocks of 1..50 generated transactions, mine_block assembly.",
+        "note": "Theorems are about the hand-written models of blockchain.py / tx.coinbase_tx / coinbase_txin / integrations.mine_block "
+                "assembly; heights above 2^33 are outside the correspondence (Python builds 2**halvings). Trusted: Coq kernel, "
+                "extraction, harness, hashlib.",
+        "technique": "Coq proof (refinement to level-wise merkle spec, CScriptNum minimality, codec round trip) + correspondence",
+        "design": "DESIGN.md section 8 / C15, section 12",
+    },
     "C17": {
         "text": "Machine-checked proof (Coq 8.16.1) over a socket model (stream + arbitrary schedule of positive chunk sizes): for every "
                 "command of the table, payload <= MAX_SIZE, trailing bytes and EVERY fragmentation, recv_msg returns exactly (magic, command, "
